@@ -1808,12 +1808,16 @@ class GtkDocCommentBlockParser(object):
                                           'be ignored:',
                                           position, None, marker_pos, original_line)
                                 else:
+                                    if comment_block.annotations.position is None:
+                                        comment_block.annotations.position = position
                                     comment_block.annotations[ann_name] = docannotation
                     else:
                         ann_name, options = self._parse_annotation(position,
                                                                column_offset + tag_fields_start,
                                                                line,
                                                                '%s %s' % (ann_name, tag_fields))
+                        if comment_block.annotations.position is None:
+                            comment_block.annotations.position = position
                         comment_block.annotations[ann_name] = options
 
                     continue
@@ -2141,7 +2145,10 @@ class GtkDocCommentBlockParser(object):
             if annotations is None:
                 parsed_annotations = GtkDocAnnotations(position=position)
             else:
-                parsed_annotations = annotations.copy()
+                # OrderedDict.copy() would drop the position; annotations that start on this
+                # (continuation) line are positioned here.
+                parsed_annotations = GtkDocAnnotations(annotations,
+                                                       position=annotations.position or position)
         else:
             parsed_annotations = []
 
